@@ -42,7 +42,7 @@ CODING = ["Encoder", "PriorityEncoder", "Decoder", "PriorityDecoder", "GrayEncod
 
 
 def budget(tier):
-    return dict(examples=45, seconds=40) if tier == "quick" else dict(examples=700, seconds=440)
+    return dict(examples=45, seconds=40) if tier == "quick" else dict(examples=500, seconds=400)
 
 
 def exception_vkey(case, exc):
@@ -480,7 +480,9 @@ def run_case(case) -> Result:
     t, p = case["t"], case["p"]
     res = Result(labels=[t])
     if t in ("OneHotMux", "one_hot_mux"):
-        res.labels += ["priority" if p["prio"] else "one-hot", "with-default" if p["dflt"] else "no-default"]
+        n_in = p["n"] if t == "OneHotMux" else len(p["shapes"])
+        forced = n_in == 0 and (t == "one_hot_mux" or p["api"] == "create")  # documented ValueError otherwise
+        res.labels += ["priority" if p["prio"] else "one-hot", "with-default" if (p["dflt"] or forced) else "no-default"]
         if t == "OneHotMux":
             res.labels.append(f"api={p['api']}")
         kind = p["kind"]
